@@ -128,3 +128,17 @@ dropout_call = function(
   bindings=DB, props=('C12',))
 dropout_call.locals = {'broadcast_shape': SeqOf(INT)}
 dropout_call.defaults = {'deterministic': NONEV, 'rng': NONEV}
+
+# ---- _normalize_axes (linen and nnx twins): contraction / batch axes are resolved to non-negative positions and ORDERED ----
+# DenseGeneral / LinearGeneral pair kernel dimension j with the j-th SMALLEST contracted axis, whatever order the user listed them in
+IntSeq = SeqOf(INT)
+NORMED = '(axes[i] if axes[i] >= 0 else ndim + axes[i])'
+NORM_ENS = [
+  'len(result) == len(axes)',
+  'forall(Int, Int, lambda i, j: implies(0 <= i and i < j and j < len(result), result[i] <= result[j]))',      # ascending
+  f'forall(Int, lambda i: implies(0 <= i and i < len(axes), exists(Int, lambda j: 0 <= j and j < len(result) and result[j] == {NORMED})))',
+  'forall(Int, lambda j: implies(0 <= j and j < len(result), exists(Int, lambda i: 0 <= i and i < len(axes) and result[j] == (axes[i] if axes[i] >= 0 else ndim + axes[i]))))',
+]
+for _file in ('flax/linen/linear.py', 'flax/nnx/nn/linear.py'):
+  function(_file + '::_normalize_axes', params=[('axes', IntSeq), ('ndim', INT)], returns=IntSeq, ensures=NORM_ENS, props=('C12',),
+           native=NH(_file[:-3].replace('/', '.'), '_normalize_axes', bound=3))
